@@ -5,22 +5,134 @@ package main
 // exactly once, in order, and the rows handed on are the points the text denotes.
 
 import (
+	"encoding/hex"
+	"errors"
 	"fmt"
 	"io"
 	"strings"
 
+	"github.com/VictoriaMetrics/VictoriaMetrics/lib/bytesutil"
 	"github.com/openGemini/openGemini/lib/util/lifted/vm/protoparser/influx"
 	"verifharness/internal/gen"
 )
+
+// StreamInfo: one run of the block reader as the model needs it (coq/C06/ModelStream.v read_blocks): how the stream
+// ends, max-line-size, per call of ReadLinesBlockExt the capacities its buffer goes through, and what was observed -
+// every delivered block with the final capacity of its buffer, and whether the reader ended without an error.
+type BlockObs struct {
+	B   string `json:"b"` // hex
+	Cap int    `json:"cap"`
+}
+type StreamInfo struct {
+	End     int        `json:"end"` // 0 = io.EOF, 1 = read error
+	MaxLine int        `json:"maxline"`
+	Body    string     `json:"body"` // hex of the stream under the reader
+	Sched   [][]int    `json:"sched"`
+	Blocks  []BlockObs `json:"blocks"`
+	Ok      bool       `json:"ok"`
+}
+
+var errBroken = errors.New("stream broken")
+
+// capChain replays, on a scratch buffer, what ReadLinesBlockExt does to the capacity of dstBuf: Resize to the block
+// size, append of the carried tail, and the doublings when a full buffer holds no newline.
+func capChain(capBefore, bs, tailLen int) []int {
+	b := make([]byte, 0, capBefore)
+	if cap(b) < bs {
+		b = bytesutil.Resize(b, bs)
+	}
+	b = append(b[:0], make([]byte, tailLen)...)
+	chain := []int{cap(b)}
+	for k := 0; k < 10; k++ {
+		n := cap(b)
+		b = b[:n]
+		if cap(b) < 2*len(b) {
+			b = bytesutil.Resize(b, 2*cap(b))
+			b = b[:n]
+		}
+		chain = append(chain, cap(b))
+	}
+	return chain
+}
+
+// runStreamSched is serveWrite's read loop with the buffer handed to every call chosen here (serveWrite swaps the
+// context's buffer with the buffer of a pooled unmarshal work after every block, so any capacity can show up).
+func runStreamSched(r *gen.Rand, body []byte, blockSize, maxLine int, broken bool, chunks []int) (rows []RowObs, parseErr bool, info *StreamInfo) {
+	rd := &chunkReader{b: append([]byte{}, body...), chunks: chunks}
+	if broken {
+		rd.end = errBroken
+	}
+	ctx := influx.GetStreamContext(rd, maxLine)
+	defer influx.PutStreamContext(ctx)
+	ctx.MaxLineSize = maxLine
+	info = &StreamInfo{MaxLine: maxLine, Body: hx(string(body)), Sched: [][]int{}, Blocks: []BlockObs{}}
+	if broken {
+		info.End = 1
+	}
+	start, tailLen, prevCap := 0, 0, 0
+	for calls := 0; calls < 100000; calls++ {
+		capBefore := 0
+		switch r.Intn(5) {
+		case 0:
+			capBefore = 0
+		case 1:
+			capBefore = blockSize
+		case 2:
+			capBefore = blockSize + r.Intn(2*blockSize+1)
+		case 3:
+			capBefore = prevCap
+		default:
+			capBefore = r.Intn(blockSize + 1)
+		}
+		if capBefore <= tailLen {
+			capBefore = tailLen + 1 + r.Intn(blockSize)
+		}
+		chain := capChain(capBefore, blockSize, tailLen)
+		for k := range chain { // a buffer larger than the whole stream is never doubled again
+			if chain[k] > len(body)+1 {
+				chain = chain[:k+1]
+				break
+			}
+		}
+		info.Sched = append(info.Sched, chain)
+		ctx.ReqBuf = make([]byte, 0, capBefore)
+		if !ctx.Read(blockSize) {
+			break
+		}
+		blk := append([]byte{}, ctx.ReqBuf...)
+		fc := cap(ctx.ReqBuf)
+		info.Blocks = append(info.Blocks, BlockObs{B: hx(string(blk)), Cap: fc})
+		rs, e := runImpl(blk, 1)
+		if e {
+			parseErr = true
+		}
+		rows = append(rows, rs...)
+		if start+fc <= len(body) {
+			tailLen = fc - len(blk) - 1
+			// the buffer started with the previous tail: it held body[start : start+fc]
+			start += len(blk) + 1
+		} else {
+			tailLen = 0
+			start = len(body)
+		}
+		prevCap = fc
+	}
+	info.Ok = ctx.Error() == nil
+	return
+}
 
 // chunkReader hands the body out in pieces of the given sizes (then all the rest), like a network body does.
 type chunkReader struct {
 	b      []byte
 	chunks []int
+	end    error // what the reader answers after the last byte (nil = io.EOF)
 }
 
 func (c *chunkReader) Read(p []byte) (int, error) {
 	if len(c.b) == 0 {
+		if c.end != nil {
+			return 0, c.end
+		}
 		return 0, io.EOF
 	}
 	n := len(p)
@@ -45,6 +157,9 @@ func (c *chunkReader) Read(p []byte) (int, error) {
 func runStream(body []byte, blockSize int, chunks []int) (rows []RowObs, isErr bool, blocks int) {
 	ctx := influx.GetStreamContext(&chunkReader{b: append([]byte{}, body...), chunks: chunks}, 256*1024)
 	defer influx.PutStreamContext(ctx)
+	// a pooled context keeps the (possibly grown) buffer of its last use, and ReadLinesBlockExt only ever enlarges it:
+	// hand every call a buffer of exactly the block size, otherwise the whole body arrives in one block
+	ctx.ReqBuf = make([]byte, 0, blockSize)
 	for ctx.Read(blockSize) {
 		blocks++
 		rs, e := runImpl(ctx.ReqBuf, 1)
@@ -52,6 +167,7 @@ func runStream(body []byte, blockSize int, chunks []int) (rows []RowObs, isErr b
 			isErr = true
 		}
 		rows = append(rows, rs...)
+		ctx.ReqBuf = make([]byte, 0, blockSize)
 		if blocks > 100000 {
 			isErr = true
 			break
@@ -108,14 +224,43 @@ func caseStream(r *gen.Rand, idx int) {
 	for i, n := 0, r.Intn(6); i < n; i++ {
 		chunks = append(chunks, r.Range(1, 300))
 	}
-	rows, isErr, blocks := runStream([]byte(body), bs, chunks)
-	c := &Case{I: idx, Class: "stream", Sub: fmt.Sprintf("block=%d blocks=%d", bs, blocks), Mult: 1, In: hx(body), Text: body,
-		Err: isErr, Rows: rows, Judged: true, Nontrivial: true}
-	if isErr {
-		c.Oracle = append(c.Oracle, OracleFail{"none", "a body of valid lines was answered with an error by the block reader / parser"})
-	} else if len(rows) != len(pts) {
+	// max-line-size: mostly far away, sometimes so small that a line does not fit (the reader must refuse, and what
+	// it delivered before must be whole lines); one stream in six ends in a read error instead of io.EOF
+	maxLine := 256 * 1024
+	if r.Chance(1, 5) {
+		maxLine = r.Range(20, 160)
+	}
+	broken := r.Chance(1, 6)
+	rows, parseErr, info := runStreamSched(r, []byte(body), bs, maxLine, broken, chunks)
+	c := &Case{I: idx, Class: "stream", Sub: fmt.Sprintf("block=%d blocks=%d maxline=%d end=%d", bs, len(info.Blocks), maxLine, info.End), Mult: 1, In: hx(body), Text: body,
+		Err: parseErr || !info.Ok, Rows: rows, Judged: true, Nontrivial: true, Stream: info}
+	switch {
+	case parseErr:
+		c.Oracle = append(c.Oracle, OracleFail{"none", "a block of valid lines was refused by the parser"})
+	case !info.Ok:
+		// the reader gave up (read error, line longer than max-line-size): the delivered blocks must be whole lines of
+		// the body, in order, from its beginning. The model comparison below is on the delivered text.
+		var parts []string
+		for _, b := range info.Blocks {
+			raw, _ := hexDecode(b.B)
+			parts = append(parts, string(raw))
+		}
+		delivered := strings.Join(parts, "\n")
+		c.In, c.Text, c.Err = hx(delivered), delivered, false
+		c.Class = "stream-fail"
+		if !broken && maxLine >= 256*1024 {
+			c.Oracle = append(c.Oracle, OracleFail{"none", "a body of valid lines was answered with an error by the block reader"})
+		}
+		if len(rows) > len(pts) {
+			c.Oracle = append(c.Oracle, OracleFail{"none", fmt.Sprintf("%d points in the body, %d rows delivered", len(pts), len(rows))})
+		} else {
+			for i := range rows {
+				c.Oracle = append(c.Oracle, comparePoint(pts[i], rows[i], 1)...)
+			}
+		}
+	case len(rows) != len(pts):
 		c.Oracle = append(c.Oracle, OracleFail{"none", fmt.Sprintf("%d points in the body, %d rows delivered (block size %d)", len(pts), len(rows), bs)})
-	} else {
+	default:
 		for i := range pts {
 			c.Oracle = append(c.Oracle, comparePoint(pts[i], rows[i], 1)...)
 		}
@@ -128,7 +273,7 @@ func caseStream(r *gen.Rand, idx int) {
 // valid lines (plus one line longer than the block for B = 64) must be delivered completely and in order. Only
 // failures and a thin sample are emitted as cases; the count goes into a summary line.
 func streamSweep(idx int) int {
-	total, failed := 0, 0
+	total, failed, multi := 0, 0, 0
 	for _, bs := range []int{64, 128, 256} {
 		for L := bs - 2; L <= 3*bs+2; L++ {
 			for variant := 0; variant < 3; variant++ {
@@ -143,6 +288,9 @@ func streamSweep(idx int) int {
 				}
 				rows, isErr, blocks := runStream([]byte(body), bs, nil)
 				total++
+				if blocks > 1 {
+					multi++
+				}
 				var fails []OracleFail
 				if isErr {
 					fails = append(fails, OracleFail{"none", "valid body answered with an error"})
@@ -171,7 +319,7 @@ func streamSweep(idx int) int {
 			}
 		}
 	}
-	fmt.Printf("{\"stream_sweep\":%d,\"failed\":%d}\n", total, failed)
+	fmt.Printf("{\"stream_sweep\":%d,\"failed\":%d,\"multi\":%d}\n", total, failed, multi)
 	return idx
 }
 
@@ -218,3 +366,5 @@ func sweepBody(mst string, L int, sep string, final bool, long bool) (string, []
 }
 
 var _ = gen.Tier
+
+func hexDecode(s string) ([]byte, error) { return hex.DecodeString(s) }
